@@ -104,7 +104,7 @@ fn word(rng: &mut Rng, g: bool, seam: bool) -> String {
             *rng.pick(units::ASCII)
         } else if k < 9 {
             *rng.pick(units::MULTI)
-        } else if k < 10 && g {
+        } else if k < 10 {
             *rng.pick(units::COMBINING)
         } else if k < 11 {
             *rng.pick(units::ZW)
@@ -125,16 +125,16 @@ fn word(rng: &mut Rng, g: bool, seam: bool) -> String {
 fn numerator(rng: &mut Rng) -> i64 {
     let one = 1i64 << 53;
     match rng.below(20) {
-        0..=3 => 0,
-        4..=6 => one,
-        7..=9 => one / 2,
-        10..=11 => one / 4,
-        12 => one / 8 * 7,
-        13 => 1,               // 2^-53: only the draw 0 is below
-        14 => one - 1,
-        15 => -(one / 2),      // clamped to 0
-        16 => one * 2,         // clamped to 1
-        17 => one / 2 * 3,     // 1.5 -> 1
+        0..=1 => 0,
+        2..=3 => one,
+        4..=8 => one / 2,
+        9..=10 => one / 4,
+        11 => one / 8 * 7,
+        12 => 1,               // 2^-53: only the draw 0 is below
+        13 => one - 1,
+        14 => -(one / 2),      // clamped to 0
+        15 => one * 2,         // clamped to 1
+        16 => one / 2 * 3,     // 1.5 -> 1
         _ => (rng.next_u64() >> 11) as i64, // arbitrary multiple of 2^-53
     }
 }
@@ -166,7 +166,7 @@ impl Prop for C14 {
         let stream = rng.below(100);
         let text = if stream < 75 {
             // clean text: words separated by single spaces
-            let nw = rng.below(6);
+            let nw = if rng.chance(1, 8) { rng.below(2) } else { rng.range(2, 6) };
             (0..nw).map(|_| word(rng, g, seam)).collect::<Vec<_>>().join(" ")
         } else if stream < 85 {
             // cleaned arbitrary text
@@ -218,6 +218,40 @@ impl Prop for C14 {
         let np = rng.below(3);
         let ns = rng.below(3);
         mk_input(&text, g, seed, iw, dw, np, ns)
+    }
+
+    fn exhaustive(&mut self, _tier: Tier) -> Vec<Val> {
+        // every clean text of up to 4 letters over {a, e + U+0301} with every spacing,
+        // x 4 seeds x 5 probability pairs x both modes
+        let one = 1i64 << 53;
+        let probs = [(one / 2, one / 2), (one, 0), (0, one), (one, one), (one / 4, one / 8 * 7)];
+        let letters = ["a", "e\u{301}"];
+        let mut texts = vec![String::new()];
+        for n in 1..=4usize {
+            for w in 0..(1usize << n) {
+                for sp in 0..(1usize << (n - 1)) {
+                    let mut t = String::new();
+                    for i in 0..n {
+                        if i > 0 && (sp >> (i - 1)) & 1 == 1 {
+                            t.push(' ');
+                        }
+                        t.push_str(letters[(w >> i) & 1]);
+                    }
+                    texts.push(t);
+                }
+            }
+        }
+        let mut out = vec![];
+        for t in &texts {
+            for seed in 0..4u64 {
+                for (iw, dw) in probs {
+                    for g in [false, true] {
+                        out.push(mk_input(t, g, seed, iw, dw, 1, 1));
+                    }
+                }
+            }
+        }
+        out
     }
 
     fn run(&mut self, input: &Val) -> Option<(Val, Vec<String>)> {
